@@ -342,42 +342,79 @@ def run(v, cov, tier, seed):
     divergences += len(hazard_lines)
     # ---- 2. model
     model = build_model(obs, tier, seed)
-    in_path = os.path.join(d, "locks_input.json")
-    json.dump(model["input"], open(in_path, "w"))
-    res_steps = {}
-    if thorough:   # cross-check of the reduction on the observed instance itself (segment compositions)
-        steps_path = os.path.join(d, "locks_input_steps.json")
-        json.dump(dict(model["input"], combos=[c for c in model["input"]["combos"] if all(x <= model["nseg"] for x in c)]), open(steps_path, "w"))
-        t2 = threading.Thread(target=lambda: res_steps.update(r=common.run_tlc("MC_Locks", cfg="MC_Locks_steps.cfg", workers=4, heap="3g",
-                                                                                extra_env={"LOCKS": steps_path}, timeout=900)))
-        t2.start()
-    res = common.run_tlc("MC_Locks", workers=8, heap="3g", extra_env={"LOCKS": in_path}, timeout=900 if thorough else 240,
-                         jvm=() if thorough else FAST_JVM)
+    nseg = model["nseg"]
+    all_combos = model["input"]["combos"]
+    tlc_stats = {"distinct": 0, "generated": 0, "wall": 0.0, "runs": 0}
+
+    def tlc_on(combos, name, cfg="MC_Locks.cfg", workers=8, count=True):
+        """Run MC_Locks on the given compositions; returns the printed DEADLOCK records."""
+        path = os.path.join(d, "locks_input_%s.json" % name)
+        json.dump(dict(model["input"], combos=combos), open(path, "w"))
+        r = common.run_tlc("MC_Locks", cfg=cfg, workers=workers, heap="3g", extra_env={"LOCKS": path}, timeout=900 if thorough else 240,
+                           jvm=FAST_JVM if len(combos) < 5000 else ())
+        if r.timed_out or r.rc != 0 or r.violated or "Model checking completed. No error" not in r.out:
+            common.die_infra("TLC on MC_Locks (%s, %s) did not complete (rc=%s violated=%s timed_out=%s):\n%s" % (name, cfg, r.rc, r.violated, r.timed_out, r.out[-3000:]))
+        inp = _parse_printed(r.out, "INPUT")
+        if not inp or inp[0]["combos"] != len(combos) or inp[0]["progs"] != len(model["input"]["progs"]):
+            common.die_infra("MC_Locks did not read the observed programmes (INPUT line %s)" % (inp,))
+        if count:
+            tlc_stats["distinct"] += r.distinct
+            tlc_stats["generated"] += r.generated
+            tlc_stats["wall"] += r.wall
+            tlc_stats["runs"] += 1
+        return _parse_printed(r.out, "DEADLOCK"), r
+
+    records = []
+    if not hazard_lines:
+        # no programme shows a hazard (the unchanged tree): ascending, non-repeating acquisition cannot deadlock, TLC
+        # confirms it on all compositions in one run
+        steps_res = {}
+        if thorough:   # cross-check of the eager-release reduction on the observed instance itself (segment compositions)
+            seg_only = [c for c in all_combos if all(x <= nseg for x in c)]
+            t2 = threading.Thread(target=lambda: steps_res.update(r=tlc_on(seg_only, "steps", cfg="MC_Locks_steps.cfg", workers=4, count=False)))
+            t2.start()
+        records, _ = tlc_on(all_combos, "all")
+        if thorough:
+            t2.join()
+            a = {tuple(x["combo"]) for x in records if all(y <= nseg for y in x["combo"])}
+            b = {tuple(x["combo"]) for x in steps_res["r"][0]}
+            if a != b:
+                common.die_infra("Locks.tla: reduced and step-by-step runs disagree on the observed programmes: %s" % (sorted(a ^ b)[:5],))
+            sanity["observed_instance_step_by_step_states"] = steps_res["r"][1].distinct
+    else:
+        # hazards were seen: singles, pairs and whole-programme pairs first; then only the larger compositions that do
+        # not contain an already deadlocking one (a deadlocked composition stays deadlocked when processes are added)
+        small = [c for c in all_combos if len(c) <= 2]
+        records, _ = tlc_on(small, "small")
+        dead_small = {tuple(x["combo"]) for x in records}
+
+        def has_dead_sub(c):
+            for k in (1, 2):
+                for cc in itertools.combinations(c, k):
+                    if tuple(cc) in dead_small:
+                        return True
+            return False
+        large = [c for c in all_combos if len(c) > 2 and not has_dead_sub(c)]
+        b3_pruned = sum(1 for c in all_combos if len(c) > 2) - len(large)
+        if large:
+            more, _ = tlc_on(large, "large")
+            records += more
+        model["pruned_large"] = b3_pruned
     th.join()
     for sn in (sanity, sanity_steps):
         if "error" in sn:
             common.die_infra(sn["error"])
     if thorough:
-        t2.join()
-        if sanity.pop("dead") != sanity_steps.pop("dead"):
+        if sanity.get("dead") != sanity_steps.get("dead"):
             common.die_infra("Locks.tla: the eager-release reduction changes the set of deadlocking combinations of the hand-written programmes")
         sanity["step_by_step_states"] = sanity_steps["states"]
-        rs = res_steps["r"]
-        if rs.timed_out or rs.rc != 0 or "Model checking completed. No error" not in rs.out:
-            common.die_infra("TLC on MC_Locks (step-by-step mode) did not complete (rc=%s):\n%s" % (rs.rc, rs.out[-3000:]))
-        a = {tuple(x["combo"]) for x in _parse_printed(res.out, "DEADLOCK") if all(y <= model["nseg"] for y in x["combo"])}
-        b = {tuple(x["combo"]) for x in _parse_printed(rs.out, "DEADLOCK")}
-        if a != b:
-            common.die_infra("Locks.tla: reduced and step-by-step runs disagree on the observed programmes: %s" % (sorted(a ^ b)[:5],))
-        sanity["observed_instance_step_by_step_states"] = rs.distinct
     sanity.pop("dead", None)
-    if res.timed_out or res.rc != 0 or res.violated or "Model checking completed. No error" not in res.out:
-        common.die_infra("TLC on MC_Locks did not complete (rc=%s violated=%s timed_out=%s):\n%s" % (res.rc, res.violated, res.timed_out, res.out[-3000:]))
-    inp = _parse_printed(res.out, "INPUT")
-    if not inp or inp[0]["combos"] != len(model["input"]["combos"]) or inp[0]["progs"] != len(model["input"]["progs"]):
-        common.die_infra("MC_Locks did not read the observed programmes (INPUT line %s)" % (inp,))
+
+    class _Res:   # totals over the TLC runs on the observed instance
+        distinct, generated, wall = tlc_stats["distinct"], tlc_stats["generated"], tlc_stats["wall"]
+    res = _Res()
     dead = {}
-    for dl in _parse_printed(res.out, "DEADLOCK"):
+    for dl in records:
         key = (tuple(dl["combo"]), tuple(dl["pc"]))
         if key not in dead or len(dl["sched"]) < len(dead[key]["sched"]):
             dead[key] = dl
@@ -407,7 +444,8 @@ def run(v, cov, tier, seed):
         "compositions_checked": {"singles": model["counts"]["single"], "pairs": model["counts"]["pair"],
                                  "triples": model["counts"]["triple"], "triples_total": model["triples_total"],
                                  "quadruples": model["counts"]["quad"], "whole_programme_pairs_sampled": model["counts"]["whole_pair"]},
-        "tlc_states": res.distinct, "tlc_states_generated": res.generated, "tlc_wall_s": round(res.wall, 1),
+        "tlc_states": res.distinct, "tlc_states_generated": res.generated, "tlc_wall_s": round(res.wall, 1), "tlc_runs": tlc_stats["runs"],
+        "larger_compositions_pruned_as_supersets_of_deadlocks": model.get("pruned_large", 0),
         "model_deadlock_states": len(dead), "model_deadlock_combos": len(seg_dead) + len(whole_dead),
         "minimal_deadlock_combos": len(minimal), "model_sanity": sanity,
         "hazards": len(hazard_lines), "replays": 0, "real_deadlocks": 0, "divergences": 0,
